@@ -53,10 +53,73 @@ theorem secured_outermost :
 
 /-- the layers the model interprets, as computed from the observed wrapping order -/
 theorem chain_layers :
-    chain = [.other, .predicated, .secured, .other, .owrapped, .other, .other, .other, .other] := by decide
+    chain = [.other, .predicated, .secured, .other, .owrapped, .other, .decorated, .other, .other] := by decide
 
-/-- what the model theorems need of the chain -/
-theorem chain_secured : Layer.secured ∈ chain := by decide
+/-- what the model theorems need of a chain: the permission check is reached before any user decorator code -/
+theorem chain_ok : securedFirst chain = true := by decide
+
+/-! ### the constraint graph behind the order, and replacements of built-in derivers
+
+One sorted order is not robust: an application may REPLACE a built-in deriver by name (`add_view_deriver(f,
+name='csrf_view', under=INGRESS, …)`), which drops the hints that name carried.  What keeps the other built-ins under
+`secured_view` then is the constraint GRAPH: every built-in must be reachable "under" `secured_view` through hints that
+do not pass through the replaced name. -/
+
+def builtins : List String := probedHints.map (·.1)
+
+/-- `(u, v)`: `v` is constrained to come after (under) `u` — from `v`'s `under` or from `u`'s `over` -/
+def hintEdges : List (String × String) :=
+  probedHints.flatMap fun h => h.2.1.map (fun u => (u, h.1)) ++ h.2.2.map (fun o => (h.1, o))
+
+def stepReach (del : String) (cur : List String) : List String :=
+  (cur ++ (hintEdges.filter fun e => cur.contains e.1 && e.2 != del).map (·.2)).eraseDups
+
+def reachFrom (del : String) : Nat → List String → List String
+  | 0, c => c
+  | n + 1, c => reachFrom del n (stepReach del c)
+
+/-- the built-ins that are held under `secured_view` ONLY through `x`: re-placing `x` re-places them with it -/
+def dependents (x : String) : List String :=
+  builtins.filter fun y => y != x && y != "secured_view" &&
+    !(reachFrom x (builtins.length + 2) ["secured_view"]).contains y
+
+/-- the placements of a replaced built-in that are enumerated: under INGRESS with the default `over`, both defaults,
+under INGRESS over VIEW, under INGRESS over each other built-in -/
+def replacementHints (x : String) : List DeriverOp :=
+  [⟨x, some ["INGRESS"], none⟩, ⟨x, none, none⟩, ⟨x, some ["INGRESS"], some ["VIEW"]⟩] ++
+  ((builtins.filter fun m => m != x).map fun m => ⟨x, some ["INGRESS"], some [m]⟩)
+
+def replacementOk (x : String) (o : DeriverOp) : Bool :=
+  match sortedDerivers [o] with
+  | none => true     -- the sorter refuses the placement (cycle): nothing is configured
+  | some l =>
+    (builtins.all fun m => m == x || m == "secured_view" || (dependents x).contains m ||
+      decide (l.idxOf "secured_view" < l.idxOf m)) &&
+    (x == "decorated_view" || (dependents x).contains "decorated_view" ||
+      securedFirst ((chainNamesFor [o]).map layerOf))
+
+/-- **Replacing a built-in deriver does not move the others out from under the permission check.**  On the hints the
+running `add_view_deriver` recorded: (a) the built-ins held under `secured_view` only through `x` are exactly the ones
+the documented chain hangs below `x` — none for `csrf_view` ("nothing in the default pipeline depends on the order of
+the csrf_view"), `mapped_view`, `rendered_view`; (b) through C18's sorter model: for every built-in `x ≠ secured_view`
+re-added with any of the enumerated placements the sorter accepts, `secured_view` still sorts before every built-in
+other than `x` and `x`'s dependents, and — unless the application re-placed `decorated_view` or something it hangs
+below — the resulting chain reaches the permission check before the user's decorator (`securedFirst`). -/
+theorem secured_outermost_under_replacement :
+    builtins.map (fun x => (x, dependents x)) =
+      [("secured_view", []),
+       ("owrapped_view", ["http_cached_view", "decorated_view", "rendered_view"]),
+       ("http_cached_view", ["decorated_view", "rendered_view"]),
+       ("decorated_view", ["rendered_view"]),
+       ("rendered_view", []), ("mapped_view", []), ("csrf_view", [])] ∧
+    ((builtins.filter fun x => x != "secured_view").all fun x => (replacementHints x).all (replacementOk x)) = true := by
+  decide +kernel
+
+/-- non-vacuity of (b): the sorter model accepts e.g. the placement of the seeded scenario and keeps `secured_view`
+above everything but the re-placed `csrf_view` -/
+example : sortedDerivers [⟨"csrf_view", some ["INGRESS"], some ["owrapped_view"]⟩] =
+    some ["csrf_view", "secured_view", "owrapped_view", "http_cached_view", "decorated_view", "rendered_view",
+          "mapped_view"] := by decide +kernel
 
 /-- The action whose EXECUTION registers the security policy (`set_security_policy`; for the legacy pair the
 authentication policy's action, which installs the shim policy) and the one that registers the default permission
@@ -126,6 +189,7 @@ def encEv : Event → Nat
   | .permits _ p _ => 9 + p
   | .body t _ _ _ => t
   | .mainRaised k => 1000 + k
+  | .deco t _ _ => 500 + t
 
 def encOut : Outcome → List Nat
   | .resp t => [0, t]
@@ -426,29 +490,29 @@ the router and the exception-view tween, every body event belongs to a registere
 variant and guard — and by `guard_is_effective_permission` the guard is the view's effective permission), and if
 that guard is `p`, then `permits(ctx, p) ↦ true` stands earlier in the trace for the very context the body sees,
 the policy's table really grants `(ctx, p)`, and no body at all lies between the grant and the body. -/
-theorem mediation (r0 : Reg) (stmts : List Stmt) (w : World) (q : Req)
+theorem mediation (ch : List Layer) (hch : securedFirst ch = true) (r0 : Reg) (stmts : List Stmt) (w : World) (q : Req)
     (i tag : Nat) (exc : Bool) (ctx : Nat) (g : Option Nat)
-    (hi : (handle chain (configure r0 stmts).views w q).1[i]? = some (.body tag exc ctx g)) :
+    (hi : (handle ch (configure r0 stmts).views w q).1[i]? = some (.body tag exc ctx g)) :
     (∃ d ∈ (configure r0 stmts).views, d.tag = tag ∧ d.exc = exc ∧ d.guard = g) ∧
     (∀ p, g = some p → ∃ j, j < i ∧
-      (handle chain (configure r0 stmts).views w q).1[j]? = some (.permits ctx p true) ∧ w.pol ctx p = true ∧
-      ∀ k, j < k → k < i → ∀ e, (handle chain (configure r0 stmts).views w q).1[k]? = some e → e.isBody = false) := by
-  have h := handle_parts chain_secured (configure r0 stmts).views w q
+      (handle ch (configure r0 stmts).views w q).1[j]? = some (.permits ctx p true) ∧ w.pol ctx p = true ∧
+      ∀ k, j < k → k < i → ∀ e, (handle ch (configure r0 stmts).views w q).1[k]? = some e → e.isBody = false) := by
+  have h := handle_parts hch (configure r0 stmts).views w q
   exact mediated_of_good h.1 h.2.1 h.2.2.1 i tag exc ctx g hi
 
 /-- Mediation read against the configuration as written: the view whose body ran is a prior registration or one
 of the scope's view statements (same tag), and in the latter case the guard the grant was checked for is that
 statement's effective permission under the scope's final policy / default permission — wherever in the scope
 `set_security_policy` / `set_default_permission` were written. -/
-theorem mediation_end_to_end (r0 : Reg) (stmts : List Stmt) (w : World) (q : Req)
+theorem mediation_end_to_end (ch : List Layer) (hch : securedFirst ch = true) (r0 : Reg) (stmts : List Stmt) (w : World) (q : Req)
     (i tag : Nat) (exc : Bool) (ctx : Nat) (g : Option Nat)
-    (hi : (handle chain (configure r0 stmts).views w q).1[i]? = some (.body tag exc ctx g)) :
+    (hi : (handle ch (configure r0 stmts).views w q).1[i]? = some (.body tag exc ctx g)) :
     ((∃ d ∈ r0.views, d.tag = tag ∧ d.exc = exc ∧ d.guard = g) ∨
      (∃ dir v, Stmt.addView dir v ∈ stmts ∧ v.tag = tag ∧
         g = if policyAfter r0 stmts then effPerm (dfltAfter r0 stmts) (stmtPerm (lower dir v)) exc else none)) ∧
     (∀ p, g = some p → ∃ j, j < i ∧
-      (handle chain (configure r0 stmts).views w q).1[j]? = some (.permits ctx p true) ∧ w.pol ctx p = true) := by
-  have h := mediation r0 stmts w q i tag exc ctx g hi
+      (handle ch (configure r0 stmts).views w q).1[j]? = some (.permits ctx p true) ∧ w.pol ctx p = true) := by
+  have h := mediation ch hch r0 stmts w q i tag exc ctx g hi
   obtain ⟨⟨d, hd, ht, he, hg⟩, h2⟩ := h
   refine ⟨?_, ?_⟩
   · rcases guard_is_effective_permission r0 stmts d hd with h0 | ⟨dir, v, hs, htag, _, _, hgd⟩
@@ -461,22 +525,22 @@ theorem mediation_end_to_end (r0 : Reg) (stmts : List Stmt) (w : World) (q : Req
 
 /-- the same for `render_view_to_response(…, secure=True)` called directly (and hence for `render_view`,
 `render_view_to_iterable`) -/
-theorem mediation_render (r0 : Reg) (stmts : List Stmt) (w : World) (q : Req)
+theorem mediation_render (ch : List Layer) (hch : securedFirst ch = true) (r0 : Reg) (stmts : List Stmt) (w : World) (q : Req)
     (i tag : Nat) (exc : Bool) (ctx : Nat) (g : Option Nat)
-    (hi : (render chain (configure r0 stmts).views w q true).1[i]? = some (.body tag exc ctx g)) :
+    (hi : (render ch (configure r0 stmts).views w q true).1[i]? = some (.body tag exc ctx g)) :
     (∃ d ∈ (configure r0 stmts).views, d.tag = tag ∧ d.exc = exc ∧ d.guard = g) ∧
     (∀ p, g = some p → ∃ j, j < i ∧
-      (render chain (configure r0 stmts).views w q true).1[j]? = some (.permits ctx p true) ∧ w.pol ctx p = true ∧
-      ∀ k, j < k → k < i → ∀ e, (render chain (configure r0 stmts).views w q true).1[k]? = some e → e.isBody = false) := by
-  have h := render_inv chain_secured (configure r0 stmts).views w q
+      (render ch (configure r0 stmts).views w q true).1[j]? = some (.permits ctx p true) ∧ w.pol ctx p = true ∧
+      ∀ k, j < k → k < i → ∀ e, (render ch (configure r0 stmts).views w q true).1[k]? = some e → e.isBody = false) := by
+  have h := render_inv hch (configure r0 stmts).views w q
   exact mediated_of_good h.good h.tru h.src i tag exc ctx g hi
 
 /-- The policy is asked only about permissions some registered view is guarded by, and the recorded answer is
 the decision table's. -/
-theorem asked_exactly (r0 : Reg) (stmts : List Stmt) (w : World) (q : Req) (c p : Nat) (a : Bool)
-    (h : Event.permits c p a ∈ (handle chain (configure r0 stmts).views w q).1) :
+theorem asked_exactly (ch : List Layer) (hch : securedFirst ch = true) (r0 : Reg) (stmts : List Stmt) (w : World) (q : Req) (c p : Nat) (a : Bool)
+    (h : Event.permits c p a ∈ (handle ch (configure r0 stmts).views w q).1) :
     a = w.pol c p ∧ ∃ d ∈ (configure r0 stmts).views, d.guard = some p := by
-  have hp := handle_parts chain_secured (configure r0 stmts).views w q
+  have hp := handle_parts hch (configure r0 stmts).views w q
   refine ⟨?_, hp.2.2.2 c p a h⟩
   have := hp.2.1
   simp only [truthful, List.all_eq_true] at this
@@ -489,17 +553,17 @@ and calling the view for the request (the view itself, a multiview constituent, 
 is the LAST event of the main phase — no body runs after it — the main handler raises HTTPForbidden, and the
 request continues exactly as the exception-view lookup for HTTPForbidden (the forbidden view, or the framework's
 exception-response view giving the 403). -/
-theorem refused_no_body_403 (views : List DView) (w : World) (q : Req) (i c p : Nat)
-    (hi : (mainPhase chain views w q).1[i]? = some (.permits c p false)) :
-    i + 1 = (mainPhase chain views w q).1.length ∧
-    (mainPhase chain views w q).2 = .raised kForbidden ∧
-    handle chain views w q =
-      ((mainPhase chain views w q).1 ++ .mainRaised kForbidden :: (excPhase chain views w q kForbidden).1,
-       (excPhase chain views w q kForbidden).2) := by
-  have hm := mainPhase_inv chain_secured views w q
+theorem refused_no_body_403 (ch : List Layer) (hch : securedFirst ch = true) (views : List DView) (w : World) (q : Req) (i c p : Nat)
+    (hi : (mainPhase ch views w q).1[i]? = some (.permits c p false)) :
+    i + 1 = (mainPhase ch views w q).1.length ∧
+    (mainPhase ch views w q).2 = .raised kForbidden ∧
+    handle ch views w q =
+      ((mainPhase ch views w q).1 ++ .mainRaised kForbidden :: (excPhase ch views w q kForbidden).1,
+       (excPhase ch views w q kForbidden).2) := by
+  have hm := mainPhase_inv hch views w q
   have ht := tight_refusal _ i _ hm.tgt hi rfl
   refine ⟨ht.1, ht.2, ?_⟩
-  rcases handle_eq chain views w q with ⟨k, hk, he⟩ | ⟨hne, _⟩
+  rcases handle_eq ch views w q with ⟨k, hk, he⟩ | ⟨hne, _⟩
   · rw [ht.2] at hk; injection hk with hk; subst hk; exact he
   · exact absurd ht.2 (hne kForbidden)
 
@@ -508,10 +572,10 @@ invoked by the excview tween (or its wrapper view), the body still does not run 
 but the outcome is the HTTPForbidden itself, raised out of the tween: nothing renders it.  What is missing
 against the statement ("the forbidden (403) handling runs instead") is shown by
 `refused_exception_view_unrendered` (finding F-C05a). -/
-theorem refused_no_body_partial (views : List DView) (w : World) (q : Req) (k i c p : Nat)
-    (hi : (excPhase chain views w q k).1[i]? = some (.permits c p false)) :
-    i + 1 = (excPhase chain views w q k).1.length ∧ (excPhase chain views w q k).2 = .raised kForbidden := by
-  have hm := excPhase_inv chain_secured views w q k
+theorem refused_no_body_partial (ch : List Layer) (hch : securedFirst ch = true) (views : List DView) (w : World) (q : Req) (k i c p : Nat)
+    (hi : (excPhase ch views w q k).1[i]? = some (.permits c p false)) :
+    i + 1 = (excPhase ch views w q k).1.length ∧ (excPhase ch views w q k).2 = .raised kForbidden := by
+  have hm := excPhase_inv hch views w q k
   exact tight_refusal _ i _ hm.tgt hi rfl
 
 /-- the witness configuration of F-C05a: a policy, a view whose body raises E1 (kind 11), and an exception-only
@@ -538,35 +602,58 @@ theorem refused_exception_view_unrendered :
 /-! ## never blocked -/
 
 /-- A derived view without a guard (no effective permission, or no policy) whose predicates hold is not blocked:
-called through the chain, the first thing that happens is its body — the policy is not consulted for it. -/
+called through the chain, the first thing that happens is the view's own code — its decorator if it has one, else its
+body — and the policy is not consulted for it. -/
 theorem unprotected_never_blocked (wrap : Nat → Res) (pol : Nat → Nat → Bool) (truePreds : List Nat) (ctx : Nat)
     (d : DView) (hg : d.guard = none) (hp : predsHold truePreds d = true) :
-    (runLayers wrap pol truePreds ctx d chain).1.head? = some (.body d.tag d.exc ctx none) := by
+    (runLayers wrap pol truePreds ctx d chain).1.head? =
+      some (if d.deco then .deco d.tag ctx none else .body d.tag d.exc ctx none) := by
   rw [chain_layers]
-  cases hw : d.wrapper <;> by_cases ha : d.act = 0 <;> simp [runLayers, hg, hp, hw, ha]
+  cases hw : d.wrapper <;> by_cases ha : d.act = 0 <;> cases hd : d.deco <;> simp [runLayers, hg, hp, hw, ha, hd]
+
+/-- **User decorator code runs only after the grant.**  For every chain that reaches the permission check before the
+decorator layer (`securedFirst`; the default chain — `chain_ok` — and every chain of
+`secured_outermost_under_replacement`), the `decorator=` code of a guarded view is entered only after
+`permits(ctx, p) ↦ true` for the same context, with no body in between. -/
+theorem decorator_after_grant (ch : List Layer) (hch : securedFirst ch = true) (r0 : Reg) (stmts : List Stmt) (w : World)
+    (q : Req) (i tag ctx p : Nat)
+    (hi : (handle ch (configure r0 stmts).views w q).1[i]? = some (.deco tag ctx (some p))) :
+    ∃ j, j < i ∧ (handle ch (configure r0 stmts).views w q).1[j]? = some (.permits ctx p true) ∧ w.pol ctx p = true ∧
+      ∀ k, j < k → k < i → ∀ e, (handle ch (configure r0 stmts).views w q).1[k]? = some e → e.isBody = false := by
+  have h := handle_parts hch (configure r0 stmts).views w q
+  exact decorator_of_good h.1 h.2.1 i tag ctx p hi
+
+/-- the hypothesis is needed: with the decorator layer outside the check (what the seeded change C05-6 produces once
+`csrf_view` is re-placed under INGRESS) the decorator of a protected view is entered before the policy is asked -/
+theorem decorator_outside_check_runs_first :
+    (handle [.other, .predicated, .other, .owrapped, .other, .decorated, .other, .secured, .other]
+      (configure {} [.setPolicy false,
+        .addView 0 { tag := 1, name := 0, route := 0, ctxClass := 0, isExcCtx := false, excOnly := false, perm := .name 1,
+                     order := 0, preds := [], wrapper := none, act := 0, deco := true }]).views
+      (witnessWorld fun _ _ => true) witnessReq).1 = [.deco 1 1 (some 1), .permits 1 1 false, .mainRaised 13] := by decide
 
 /-- If no registered view carries a guard — in particular (`no_policy_never_blocked`) when no policy is
 configured — the policy is never consulted, for any request. -/
-theorem unguarded_never_asked (views : List DView) (w : World) (q : Req) (h : ∀ d ∈ views, d.guard = none)
-    (c p : Nat) (a : Bool) : Event.permits c p a ∉ (handle chain views w q).1 := by
+theorem unguarded_never_asked (ch : List Layer) (hch : securedFirst ch = true) (views : List DView) (w : World) (q : Req) (h : ∀ d ∈ views, d.guard = none)
+    (c p : Nat) (a : Bool) : Event.permits c p a ∉ (handle ch views w q).1 := by
   intro hm
-  obtain ⟨d, hd, hg⟩ := (handle_parts chain_secured views w q).2.2.2 c p a hm
+  obtain ⟨d, hd, hg⟩ := (handle_parts hch views w q).2.2.2 c p a hm
   rw [h d hd] at hg; cases hg
 
 /-- **No policy ⇒ never blocked.**  When neither the prior state nor the scope configures a policy (and the prior
 views carry no guard), no view of the resulting registry carries a guard, the policy is never consulted, and
 (by `unprotected_never_blocked`) every view whose predicates hold runs its body. -/
-theorem no_policy_never_blocked (r0 : Reg) (stmts : List Stmt) (h0 : ∀ d ∈ r0.views, d.guard = none)
+theorem no_policy_never_blocked (ch : List Layer) (hch : securedFirst ch = true) (r0 : Reg) (stmts : List Stmt) (h0 : ∀ d ∈ r0.views, d.guard = none)
     (hno : policyAfter r0 stmts = false) :
     (∀ d ∈ (configure r0 stmts).views, d.guard = none) ∧
     ∀ (w : World) (q : Req) (c p : Nat) (a : Bool),
-      Event.permits c p a ∉ (handle chain (configure r0 stmts).views w q).1 := by
+      Event.permits c p a ∉ (handle ch (configure r0 stmts).views w q).1 := by
   have hall : ∀ d ∈ (configure r0 stmts).views, d.guard = none := by
     intro d hd
     rcases guard_is_effective_permission r0 stmts d hd with h | ⟨dir, v, _, _, _, _, hg⟩
     · exact h0 d h
     · rw [hg, hno]; rfl
-  exact ⟨hall, fun w q c p a => unguarded_never_asked _ w q hall c p a⟩
+  exact ⟨hall, fun w q c p a => unguarded_never_asked ch hch _ w q hall c p a⟩
 
 /-! ## `view_execution_permitted` -/
 
